@@ -316,6 +316,33 @@ def run(ck, prog):
     rule_registration_before_value(ck, prog, "R05.7")
 
 
+def scope_stack_rule(ck, prog, rule):
+    """shared with C18: Scopes::push/pop balanced on every feasible path (current_defset_id(), and with it whether a def
+    is a top-level symbol or a member of a defset, is read off this stack: a scope left behind makes a later
+    `ctx.scopes.pop()` remove the wrong scope, and every def after it lands in a defset that is already closed)"""
+    g = gf.get(prog)
+    types = ast_facts.ast_types(prog)
+    acc = ast_facts.accessors(prog)
+    oracle = brackets.ChildOracle(prog, g, types, acc)
+    n = 0
+    for b in prog.bodies.values():
+        if b.crate != "ide.rlib":
+            continue
+        callees = {Body.callee(t) for _, t in b.calls()}
+        if (PUSH not in callees and POP not in callees) or b.path in (PUSH, POP):
+            continue
+        dead, _ = brackets.infeasible_edges(b, prog, oracle)
+        r = brackets.check(b, lambda c: c == PUSH, lambda c: c == POP, dead)
+        n += len(r["opens"])
+        bad = r["leaks"] or r["underflows"] or r["unbounded"]
+        ck.ob(rule, "scope-stack:%s" % b.path, not bad, "Scopes::push/pop balanced on all feasible paths",
+              msg="%s: the scope stack is left unbalanced on some path: the enclosing construct's pop then removes the wrong "
+                  "scope, and current_defset_id() keeps answering with a defset that is already closed (or none): later defs "
+                  "are listed under the wrong parent" % b.path)
+    ck.floor(rule, "Scopes::push sites", n, 9)
+    stack_primitives(ck, prog, rule, PUSH, POP, None)
+
+
 def file_stack_rule(ck, prog, rule):
     """shared with C06/C17: IndexCtx::push_file/pop_file balanced on every feasible path (ranges are paired
     with the file on top of this stack)"""
